@@ -1,4 +1,5 @@
 import SSV.Gen.C09
+import SSV.Model.PortSet
 /-
 Model of router/route.go and router/router.go (pinned tree + proposed_fixes/F3.diff).
 
@@ -323,12 +324,6 @@ def meetAll (p : Params) (q : Req) : List Crit → R
 
 /-! ## Configuration -/
 
-/-- one element of `fromPortRanges` / `toPortRanges` (the comma/dash syntax itself is C10's `parse_sound`) -/
-inductive PortItem where
-  | single (p : Nat)
-  | range (a b : Nat)
-deriving DecidableEq, Repr
-
 /-- `RouteConfig`, field by field. -/
 structure RouteConfig where
   name : String
@@ -338,12 +333,13 @@ structure RouteConfig where
   fromServers : List String := []
   fromUsers : List String := []
   fromPorts : List Nat := []
-  fromPortRanges : List PortItem := []
+  /-- the string as written (bytes) -/
+  fromPortRanges : List UInt8 := []
   fromPrefixes : List Prefix := []
   fromPrefixSets : List String := []
   fromGeoIPCountries : List String := []
   toPorts : List Nat := []
-  toPortRanges : List PortItem := []
+  toPortRanges : List UInt8 := []
   toDomains : List String := []
   toDomainSets : List String := []
   toMatchedDomainExpectedPrefixes : List Prefix := []
@@ -368,8 +364,11 @@ structure RouteConfig where
 /-- what `Config.Router` passes to `RouteConfig.Route` (names only; behaviours are in `Params`) -/
 structure Env where
   hasGeoip : Bool := false
-  /-- `resolvers` (in order) = keys of `resolverMap` -/
+  /-- the `resolvers` slice, in order; a resolver is identified by the name it has in the service configuration -/
   resolvers : List String := []
+  /-- the keys of `resolverMap` (service.Config.Manager stores every resolver in both, under its name; the router
+  itself does not require the two to agree, and neither do the theorems) -/
+  resolverMap : List String := []
   tcpClients : List String := []
   udpClients : List String := []
   /-- `serverIndexByName`: name ↦ position -/
@@ -427,7 +426,7 @@ def precheck (env : Env) (rc : RouteConfig) : Option BuildErr :=
 /-- `if rc.Resolver != "" { ... resolvers = []dns.SimpleResolver{resolver} }` -/
 def resolversFor (env : Env) (rc : RouteConfig) : Except BuildErr (List String) :=
   if rc.resolver = "" then .ok env.resolvers
-  else if env.resolvers.contains rc.resolver then .ok [rc.resolver]
+  else if env.resolverMap.contains rc.resolver then .ok [rc.resolver]
   else .error .resolverNotFound
 
 def secNetwork (rc : RouteConfig) : Except BuildErr (List Crit) :=
@@ -459,13 +458,16 @@ def addPorts (bad : BuildErr) (s : PortSet) : List Nat → Except BuildErr PortS
   | [] => .ok s
   | p :: ps => if p = 0 || p ≥ portSpace then .error bad else addPorts bad (s.add p) ps
 
-/-- `PortSet.Parse` on the already split items: value out of `uint16`, zero port, `from >= to` are errors -/
-def addItems (bad : BuildErr) (s : PortSet) : List PortItem → Except BuildErr PortSet
+/-- `PortSet.Parse(rc.FromPortRanges)` on the table: the comma-separated pieces the loop visits
+(`SSV.PortSet.items`), each parsed by `SSV.PortSet.parseItem` (C10's model of the piece syntax: `strconv.ParseUint(_, 10, 16)`,
+zero port, `from >= to`); the first bad piece is the error return. -/
+def addPieces (bad : BuildErr) (s : PortSet) : List (List UInt8) → Except BuildErr PortSet
   | [] => .ok s
-  | .single p :: is => if p = 0 || p ≥ portSpace then .error bad else addItems bad (s.add p) is
-  | .range a b :: is =>
-    if a = 0 || a ≥ portSpace || b ≥ portSpace || a ≥ b then .error bad
-    else addItems bad (s.addRun a (b + 1 - a)) is
+  | pc :: rest =>
+    match SSV.PortSet.parseItem pc with
+    | none => .error bad
+    | some (.port p) => addPieces bad (s.add p) rest
+    | some (.range a b) => addPieces bad (s.addRun a (b + 1 - a)) rest
 
 /-- the `switch portCount` of `RouteConfig.Route` -/
 def portCrit (s : PortSet) (singleCount allCount maxRanges : Nat) (pointless : BuildErr)
@@ -480,15 +482,15 @@ def portCrit (s : PortSet) (singleCount allCount maxRanges : Nat) (pointless : B
 
 /-- the `if len(rc.FromPorts) > 0 || rc.FromPortRanges != "" { ... }` block (same shape for the destination);
 `init` is the zero-valued `var portSet portset.PortSet` -/
-def portsSection (init : PortSet) (ports : List Nat) (items : List PortItem) (invert : Bool)
+def portsSection (init : PortSet) (ports : List Nat) (str : List UInt8) (invert : Bool)
     (badPorts badRanges pointless : BuildErr) (singleCount allCount maxRanges : Nat)
     (single : Nat → Crit) (ranges : List (Nat × Nat) → Crit) (set : PortSet → Crit) : Except BuildErr (List Crit) :=
-  if ports.isEmpty && items.isEmpty then .ok []
+  if ports.isEmpty && str.isEmpty then .ok []
   else
     match addPorts badPorts init ports with
     | .error e => .error e
     | .ok s1 =>
-    match addItems badRanges s1 items with
+    match addPieces badRanges s1 (SSV.PortSet.items str) with
     | .error e => .error e
     | .ok s2 =>
     match portCrit s2 singleCount allCount maxRanges pointless single ranges set with
@@ -656,16 +658,33 @@ def Route.clientFor (r : Route) (net : Net) : Res :=
   | some c => .client c
   | none => .rejected
 
-/-- `Router.match` followed by the client getter; the empty list is `panic("did not match default route")` -/
-def matchRoutes (p : Params) (q : Req) : List Route → Res
+/-- what `Router.match` returns: the matched route, an error, or `panic("did not match default route")` -/
+inductive MatchRes where
+  | route (r : Route)
+  | error (e : Err)
+  | panic
+
+/-- `Router.match` -/
+def matchRoute (p : Params) (q : Req) : List Route → MatchRes
   | [] => .panic
   | r :: rs =>
     match meetAll p q r.criteria with
-    | .yes => r.clientFor q.net
-    | .no => matchRoutes p q rs
+    | .yes => .route r
+    | .no => matchRoute p q rs
     | .fail e => .error e
     | .panic => .panic
 
-def getClient (p : Params) (r : Router) (q : Req) : Res := matchRoutes p q r.routes
+/-- `GetTCPClient` / `GetUDPClient`: `match`, then the client getter of the matched route -/
+def getClient (p : Params) (r : Router) (q : Req) : Res :=
+  match matchRoute p q r.routes with
+  | .route rt => rt.clientFor q.net
+  | .error e => .error e
+  | .panic => .panic
+
+/-- the name of the matched route (what `GetTCPClient` / `GetUDPClient` log as "route"); `none` when there is none -/
+def matchedRoute (p : Params) (r : Router) (q : Req) : Option String :=
+  match matchRoute p q r.routes with
+  | .route rt => some rt.name
+  | _ => none
 
 end SSV.Router
